@@ -113,7 +113,9 @@ def check(cfg, lines):
         if k == "OBS":
             # end-of-instant observer of the harness: a request still waiting although the edge could serve it
             _, t, ed, what, nq, nfree = e
-            if what == "put":
+            if what == "occ":
+                v("C03", "edge %d at the end of instant %s holds %d item(s), %d went in through its put and have not come out through its get" % (ed, t, nq, nfree))
+            elif what == "put":
                 v("C10", "edge %d at the end of instant %s: %d space request(s) waiting while %d slot(s) are free and unreserved" % (ed, t, nq, nfree))
             else:
                 v("C10", "edge %d at the end of instant %s: %d retrieval request(s) waiting while %d available item(s) are unreserved" % (ed, t, nq, nfree))
@@ -353,6 +355,13 @@ def check(cfg, lines):
         integral = L[0] + L[2] * (T - L[1])
         if abs(float(d["wsum"]) - integral) > 1e-6:
             v("C18", "edge %d: weighted occupancy sum %s, integral of the true occupancy %s" % (ed, d["wsum"], integral))
+    # ---------------- C03 / C02: what each edge really holds at the end is what the movements say it holds
+    for ed, d in edges.items():
+        if "ready" not in d or crash:
+            continue
+        real = sorted(int(x) for x in (d.get("transit", "").split(",") + d["ready"].split(",")) if x not in ("", "-1"))
+        if real != sorted(inside[ed]):
+            v("C03", "edge %d holds items %s at the end of the run, the movements through its put / get leave %s inside" % (ed, real, sorted(inside[ed])))
     # ---------------- C10: nothing stranded at the end of the run (every event before T has been processed)
     for ed, d in edges.items():
         if "res" not in d:
